@@ -31,6 +31,7 @@ type Cfg struct {
 	NoCmpChain bool // a < b == c without parentheses
 	BigSlices  bool // slice literals crossing the 9 -> 10 boundary
 	NoMultiRet bool
+	IO         bool // input/read/write/exists and program calls (never executed by the harness: C16 only)
 }
 
 type varInfo struct {
@@ -418,7 +419,94 @@ func (g *G) exprMin(ty ts.Type, depth int, minLen int) ts.Expr {
 	return e
 }
 
+func (g *G) ioExpr(ty ts.Type, depth int) ts.Expr {
+	switch ty {
+	case ts.TString:
+		switch g.pick("io-str", 40, 30, 30) {
+		case 0:
+			g.tag("io-read")
+			return ts.Read{P: g.expr(ts.TString, depth-1)}
+		case 1:
+			g.tag("io-input")
+			return ts.Input{}
+		default:
+			g.tag("io-input-prompt")
+			return ts.Input{Prompt: g.expr(ts.TString, depth-1)}
+		}
+	case ts.TBool:
+		g.tag("io-exists")
+		return ts.Exists{P: g.expr(ts.TString, depth-1)}
+	}
+	return nil
+}
+
+func (g *G) appCall(depth int) ts.App {
+	n := g.pick("pipe-len", 60, 30, 10) + 1
+	a := ts.App{}
+	for i := 0; i < n; i++ {
+		one := ts.AppOne{Name: []string{"ls", "grep", "sort", "cat", "echo", "tool"}[g.intn("app", 0, 5)]}
+		if g.chance("app-literal", 30) {
+			one.Literal = true
+			one.Name = []string{"./run.sh", "bin/tool", "helper"}[g.intn("app-path", 0, 2)]
+			one.Raw = g.chance("app-raw", 50)
+		}
+		for k := g.intn("app-nargs", 0, 3); k > 0; k-- {
+			arg := g.expr(ts.TString, depth-1)
+			// open finding C18-literal-arg-unquoted: a literal argument is emitted as a bare shell word, so one
+			// starting with '#' comments out the rest of the line. Kept out of this search, counted.
+			inner := arg
+			for {
+				grp, isGroup := inner.(ts.Group)
+				if !isGroup {
+					break
+				}
+				inner = grp.E
+			}
+			if lit, ok := inner.(ts.StrLit); ok && len(lit.V) > 0 && lit.V[0] == '#' {
+				g.tag("excluded:C18-literal-arg-unquoted")
+				arg = ts.StrLit{V: "x" + lit.V}
+			}
+			one.Args = append(one.Args, arg)
+		}
+		a.Calls = append(a.Calls, one)
+	}
+	g.tag(fmt.Sprintf("app-pipeline-%d", n))
+	return a
+}
+
+func (g *G) ioStmt() []ts.Stmt {
+	depth := g.intn("io-depth", 0, 2)
+	switch g.pick("io-stmt", 35, 30, 35) {
+	case 0:
+		w := ts.Write{P: g.expr(ts.TString, depth), D: g.expr(ts.TString, depth)}
+		if g.chance("write-append", 50) {
+			w.A = g.expr(ts.TBool, depth)
+		}
+		g.tag("io-write")
+		return []ts.Stmt{w}
+	case 1:
+		g.tag("app-stmt")
+		return []ts.Stmt{ts.ExprStmt{E: g.appCall(depth + 1)}}
+	default:
+		names := []string{}
+		for i := 0; i < 3; i++ {
+			names = append(names, g.freshNameAvoid(names))
+		}
+		tys := []ts.Type{ts.TString, ts.TString, ts.TInt}
+		form := []int{ts.DeclShort, ts.DeclVarValue}[g.intn("capture-form", 0, 1)]
+		d := ts.VarDecl{Names: names, Ty: ts.TString, Tys: tys, Vals: []ts.Expr{g.appCall(depth + 1)}, Form: form}
+		for i, n := range names {
+			g.defineVar(n, tys[i], 0)
+		}
+		g.tag("app-capture")
+		return []ts.Stmt{d}
+	}
+}
+
 func (g *G) exprMin1(ty ts.Type, depth int, minLen int) ts.Expr {
+	if g.cfg.IO && g.pure == 0 && minLen == 0 && depth > 0 && (ty == ts.TString || ty == ts.TBool) && g.chance("io-expr", 8) {
+		return g.ioExpr(ty, depth)
+	}
 	if depth <= 0 {
 		return g.leaf(ty, minLen)
 	}
@@ -1359,7 +1447,11 @@ func (g *G) stmt(depth int) []ts.Stmt {
 	if g.cfg.Slices {
 		wSet, wCopy, wDump = 12, 4, 5
 	}
-	switch g.pick("stmt", 18, 18, 16, wIf, wSwitch, wLoop, wJump, wCall, wRet, wPanic, wSet, wCopy, wDump) {
+	wIO := 0
+	if g.cfg.IO {
+		wIO = 12
+	}
+	switch g.pick("stmt", 18, 18, 16, wIf, wSwitch, wLoop, wJump, wCall, wRet, wPanic, wSet, wCopy, wDump, wIO) {
 	case 0:
 		return g.declStmt()
 	case 1:
@@ -1385,6 +1477,8 @@ func (g *G) stmt(depth int) []ts.Stmt {
 		return g.setIndexStmt()
 	case 11:
 		return g.copyStmt()
+	case 13:
+		return g.ioStmt()
 	default:
 		cands := []*varInfo{}
 		for _, v := range g.allVars() {
